@@ -46,6 +46,15 @@ func (p *neverProbe) Observable() ro.Observable[int] {
 	})
 }
 
+// a never-ending source that never emits either (ro.Never, a quiet subject, a socket nobody writes to): nothing the
+// operator does on a value can release it by accident — only its teardown can
+func (p *neverProbe) Silent() ro.Observable[int] {
+	return ro.NewObservableWithContext(func(ctx context.Context, dest ro.Observer[int]) ro.Teardown {
+		atomic.AddInt32(&p.subs, 1)
+		return func() { atomic.AddInt32(&p.teardowns, 1) }
+	})
+}
+
 // an inner source of a higher-order operator that emits one value synchronously, inside its Subscribe, and then stays
 // open for ever (a BehaviorSubject, a replay cache, StartWith over a hot source): a downstream that ends ON that value
 // ends while the operator is still inside the inner Subscribe — the inner subscription does not exist yet for the
@@ -81,6 +90,20 @@ var cancelOps = map[string]struct {
 	"MergeMapInnerOpen": {"-", func() intOp {
 		return ro.MergeMap(func(v int) ro.Observable[int] { return cancelProbe.SyncThenOpen() })
 	}},
+	// ToChannel subscribes its source from a goroutine, a millisecond after it has handed out the channel: a downstream
+	// that ends ON the channel (take1) or is unsubscribed at once (unsub0) ends BEFORE the upstream subscription exists; it
+	// must be released as soon as it is registered. The channel is drained so that the producer is never blocked.
+	"ToChannel": {"-", func() intOp {
+		return func(src ro.Observable[int]) ro.Observable[int] {
+			return ro.Map(func(ch <-chan ro.Notification[int]) int {
+				go func() {
+					for range ch {
+					}
+				}()
+				return 0
+			})(ro.ToChannel[int](4)(src))
+		}
+	}},
 	"SubscribeOn":  {"detachOn", func() intOp { return ro.SubscribeOn[int](4) }},
 	"Catch":        {"Catch", func() intOp { return ro.Catch(func(err error) ro.Observable[int] { return ro.Just(9) }) }},
 	"MergeWith":    {"MergeAll", func() intOp { return ro.MergeWith(ro.Just(9)) }},
@@ -112,7 +135,11 @@ func runCancelCase(c *Case) string {
 	}
 	probe := &neverProbe{}
 	cancelProbe = probe
-	obs := op(probe.Observable())
+	srcObs := probe.Observable()
+	if c.get("src", "-") == "silent" {
+		srcObs = probe.Silent()
+	}
+	obs := op(srcObs)
 	if term == "take1" {
 		obs = ro.Take[int](1)(obs)
 	}
@@ -157,7 +184,9 @@ func runCancelCase(c *Case) string {
 	default:
 		// external Unsubscribe: needs the handle, i.e. Subscribe must have returned
 		if wait(isReturned, grace) {
-			time.Sleep(time.Millisecond)
+			if term != "unsub0" { // unsub0: at once, before an operator that subscribes its source later has done so
+				time.Sleep(time.Millisecond)
+			}
 			sub.Unsubscribe()
 			ended = true
 		}
@@ -186,11 +215,17 @@ func genCancel(tier string, seed int64, only string) []*Case {
 		cases = append(cases, newCase(id, append([]string{"kind", "cancel"}, kv...)...))
 	}
 	for name, co := range cancelOps {
-		for _, term := range []string{"unsub", "take1"} {
+		for _, term := range []string{"unsub", "take1", "unsub0"} {
 			if term == "take1" && (name == "Delay") {
 				continue
 			}
+			if term == "unsub0" && name != "ToChannel" && name != "SubscribeOn" && name != "Delay" {
+				continue
+			}
 			add("op", name, "row", co.row, "term", term)
+			if term != "take1" || name == "ToChannel" {
+				add("op", name, "row", co.row, "term", term, "src", "silent")
+			}
 		}
 	}
 	// pass-value chainable operators: both terminators; every chainable operator: external unsubscribe
